@@ -73,6 +73,8 @@ pub enum SendOp {
     Push { tag: u32, hid: usize, ops: Vec<SendOp> },
     // --- usability probe (C16): send exactly capacity() bytes
     SendCap { eos: bool },
+    /// hand the SendStream over to the inline registry (C20): from now on it is used from inside transport callbacks
+    Park,
 }
 
 /// one scripted call on the receive half (conformance replays)
@@ -84,6 +86,37 @@ pub enum RecvOp {
     Release { n: usize },
     WaitQ { k: usize },
     Drop,
+    /// hand the RecvStream over to the inline registry (C20)
+    Park,
+}
+
+/// C20: a handle operation executed INSIDE a transport callback of endpoint `ep`'s connection task (h2 holds none of
+/// its locks there), i.e. at exactly the points where another thread could get in while the connection is being polled.
+#[derive(Serialize, Deserialize, Clone, Debug, PartialEq)]
+#[serde(tag = "op", rename_all = "snake_case")]
+pub enum InlineAct {
+    Data { tag: u32, n: usize, eos: bool },
+    Reset { tag: u32, code: u32 },
+    DropSend { tag: u32 },
+    Reserve { tag: u32, n: usize },
+    Capacity { tag: u32 },
+    PollData { tag: u32 },
+    Release { tag: u32, n: usize },
+    DropRecv { tag: u32 },
+    /// a new request through a SendRequest clone (client)
+    SendRequest { tag: u32 },
+    /// user ping through the PingPong handle
+    Ping,
+}
+
+#[derive(Serialize, Deserialize, Clone, Debug, PartialEq)]
+pub struct InlineStep {
+    pub ep: usize,
+    /// "read" | "write" | "flush" | "any" (callback kind) | "q" (at quiescence number nth: clean-up of what never fired)
+    pub at: String,
+    /// fire at the nth callback of that kind (1-based)
+    pub nth: usize,
+    pub act: InlineAct,
 }
 
 #[derive(Serialize, Deserialize, Clone, Debug)]
@@ -244,6 +277,8 @@ pub struct Scenario {
     pub srv_accept_budget: Option<usize>,
     /// log a statistics snapshot after every poll of a connection task (not only at quiescence)
     pub dense_stats: bool,
+    /// C20: handle operations executed inside transport callbacks
+    pub inline: Vec<InlineStep>,
     pub peer_cfg: PeerCfg,
     pub peer: Vec<PeerStep>,
     pub env: Vec<EnvStep>,
